@@ -2,6 +2,7 @@ package tree
 
 import (
 	"fmt"
+	"sync"
 
 	schemaClient "github.com/sdcio/data-server/pkg/datastore/clients/schema"
 )
@@ -14,6 +15,10 @@ type TreeContext struct {
 	// owners holds all the owners that have been the actual owner, these are
 	// the owners that take part in the ongoing transaction
 	owners map[string]struct{}
+	// onDemandMutex serialises the loading of values on demand (running values, defaults) while the tree
+	// is navigated. Entries are linked into the tree before their value is added, navigating goroutines must
+	// not pick them up in between.
+	onDemandMutex sync.RWMutex
 }
 
 func NewTreeContext(cc TreeCacheClient, sc schemaClient.SchemaClientBound, actualOwner string) *TreeContext {
